@@ -53,3 +53,4 @@ def run(ctx, R):
     rtpreserve.rule_a64_rcplit(ctx, R)
     rtpreserve.rule_const(ctx, R, 'a64')
     a64dsread.rule_dsread(ctx, R)
+    genreset.rule_ctor_init(ctx, R, 'a64')
